@@ -536,6 +536,11 @@ def parseNetCfg (s : String) : Option (Nat × List (List Nat) × String) :=
   match s.splitOn "/" with
   | [n, t, b] => do
     let n ← (dropS n 1).toNat?
+    if t == "RA" || t == "RB" || t == "RT" then
+      -- relay chain 0 - 1 - 2: peers 0 and 1 trust everybody, peer 2 trusts peer 0 / peer 1 / everybody
+      if n != 3 then none else
+      pure (n, [[1, 2], [0, 2], if t == "RA" then [0] else if t == "RB" then [1] else [0, 1]], t ++ "-" ++ b)
+    else
     let out : Option Nat ← if t == "A" || t == "T" then some none
       else if t.startsWith "O" then (dropS t 1).toNat?.map some else none
     let trusts := (List.range n).map (fun i => (List.range n).filter (fun j => j != i && some j != out))
